@@ -154,10 +154,14 @@ func (s testSvc[T]) Calc(buf *bytes.Buffer) T {
 	}
 	b.WriteString("\t}\n\tpanic(\"packet \" + name)\n}\n\n")
 	// checksum registration
-	b.WriteString("func setChecksums(on bool) {\n\tcodec.ClearServices()\n\tif !on {\n\t\treturn\n\t}\n")
+	b.WriteString("var wideSum bool\n\nfunc setChecksums(on bool) {\n\tcodec.ClearServices()\n\tif !on {\n\t\treturn\n\t}\n")
 	algs := Algs(p)
 	for _, a := range sortedKeys(algs) {
 		t := goScalar[algs[a]]
+		if dsl.ScalarSize(algs[a]) == 8 {
+			fmt.Fprintf(&b, "\tcodec.Register(%q, testSvc[%s]{conv: func(h uint32) %s {\n\t\tif wideSum {\n\t\t\treturn %s(uint64(h) * 0x100000001)\n\t\t}\n\t\treturn %s(h)\n\t}})\n", a, t, t, t, t)
+			continue
+		}
 		fmt.Fprintf(&b, "\tcodec.Register(%q, testSvc[%s]{conv: func(h uint32) %s { return %s(h) }})\n", a, t, t, t)
 	}
 	b.WriteString("}\n\n")
@@ -174,7 +178,8 @@ func (s testSvc[T]) Calc(buf *bytes.Buffer) T {
 	}()
 	switch parts[0] {
 	case "CKS":
-		setChecksums(parts[1] == "1")
+		wideSum = parts[1] == "2"
+		setChecksums(parts[1] != "0")
 		return "R - ok"
 	case "REUSE":
 		reuse = parts[1] == "1"
